@@ -215,7 +215,7 @@ func (fr *Frame) preludeCall(st *State, name string, fn *ssa.Function, args []Va
 			ex.unsupported("distinctRefs on non-reference values")
 		}
 		return Val{T: Or(Eq(x, TNull), Eq(y, TNull), Neq(x, y))}, true
-	case "__countRecv":
+	case "__countRecv", "__countIn":
 		// countRecv(ch, lo, hi, pred): how many of the values received from ch with index in [lo, hi) satisfy pred.
 		// An uninterpreted function of (receive log, lo, hi, whatever state pred reads), axiomatised by: empty range;
 		// one-step unfolding at the upper end (only for the upper bounds that occur in the specification, marked by
@@ -225,10 +225,25 @@ func (fr *Frame) preludeCall(st *State, name string, fn *ssa.Function, args []Va
 		if clo == nil || len(clo.Fn.Params) != 1 {
 			ex.unsupported("countRecv needs a literal one-argument predicate")
 		}
-		elem := chanElem(cc.Args[0].Type())
-		es := ex.ctx.SortOf(elem)
-		logSort := ArraySort(SInt, es)
-		logArr := Select(ex.get(st, "ChanRecv_"+typeKey(elem), ArraySort(SRef, logSort)), args[0].T)
+		var elem types.Type
+		var es, logSort string
+		var logArr *Term
+		loArg, hiArg := args[1].T, args[2].T
+		if name == "__countIn" {
+			// countIn(s, lo, hi, pred): the same counting function over the elements s[lo..hi) of a slice (the "log" is
+			// the slice's backing array, the bounds are shifted by the slice's offset)
+			elem = cc.Args[0].Type().Underlying().(*types.Slice).Elem()
+			es = ex.ctx.SortOf(elem)
+			logSort = ArraySort(SInt, es)
+			c, cs := ex.elemsComp(elem)
+			logArr = Select(ex.get(st, c, cs), SArr(args[0].T))
+			loArg, hiArg = Add(SOff(args[0].T), loArg), Add(SOff(args[0].T), hiArg)
+		} else {
+			elem = chanElem(cc.Args[0].Type())
+			es = ex.ctx.SortOf(elem)
+			logSort = ArraySort(SInt, es)
+			logArr = Select(ex.get(st, "ChanRecv_"+typeKey(elem), ArraySort(SRef, logSort)), args[0].T)
+		}
 		xb := Bound{Name: ex.boundName("x"), Sort: es}
 		xv := V(xb.Name, es)
 		// captured values become arguments of the counting function (so that the same predicate over provably equal
@@ -338,7 +353,7 @@ func (fr *Frame) preludeCall(st *State, name string, fn *ssa.Function, args []Va
 		for _, b := range bs {
 			boundExtra = append(boundExtra, V(b.Name, b.Sort))
 		}
-		app := mkApp(logArr, args[1].T, args[2].T, extra)
+		app := mkApp(logArr, loArg, hiArg, extra)
 		ex.ctx.Fun("cnt_mark", []string{SInt}, SInt)
 		if !seen {
 			all := append([]Bound{{"log!cnt", logSort}, {"lo!cnt", SInt}, {"hi!cnt", SInt}}, bs...)
@@ -350,6 +365,11 @@ func (fr *Frame) preludeCall(st *State, name string, fn *ssa.Function, args []Va
 			step := Eq(c, Add(mkApp(lg, lo, Sub(hi, IntLit(1)), boundExtra), Ite(canonX, IntLit(1), IntLit(0))))
 			ex.axioms = append(ex.axioms, &Term{Op: "forall", Sort: SBool, Bound: all, Pat: []*Term{c, App("cnt_mark", SInt, hi)},
 				Args: []*Term{Implies(Lt(lo, hi), step)}})
+			// monotone in the upper bound (a consequence of the definition by induction, given to the solver as a fact)
+			h2 := V("hi2!cnt", SInt)
+			cB := mkApp(lg, lo, h2, boundExtra)
+			ex.axioms = append(ex.axioms, &Term{Op: "forall", Sort: SBool, Bound: append(append([]Bound{}, all...), Bound{"hi2!cnt", SInt}), Pat: []*Term{c, cB},
+				Args: []*Term{Implies(Le(hi, h2), Le(c, cB))}})
 			// a receive at or beyond the upper end does not matter
 			nb, vb := Bound{"n!cnt", SInt}, Bound{"v!cnt", es}
 			st2 := Store(lg, V("n!cnt", SInt), V("v!cnt", es))
@@ -364,7 +384,7 @@ func (fr *Frame) preludeCall(st *State, name string, fn *ssa.Function, args []Va
 			}
 			ex.trusted["countRecv: counting function axiomatised by empty range, one-step unfolding, frame over later receives (standard recursive definition)"] = true
 		}
-		return Val{T: Add(app, App("cnt_mark", SInt, args[2].T))}, true
+		return Val{T: Add(app, App("cnt_mark", SInt, hiArg))}, true
 	case "__witness":
 		// always true; its only purpose is to put the term x into the formula so that the solver's
 		// E-matching has something to instantiate an existential's bound variable with
